@@ -11,18 +11,18 @@ RULE = ("for every (operation, old content, new content) case the real code runs
         "write after each prefix length (all lengths for writes <= 16 bytes; 1,2,half,4095..4097,size-1 for larger). After "
         "each crash the target must hold the complete old or the complete new content. non-trivial = distinct (case, crash "
         "plan) pairs where the crash fell after the first mutating call, i.e. something was already on disk")
-BOUNDS = {"quick": "setContent x {absent,old} x {empty,1 byte,8197 bytes} x ext variants; Persistent.save pickle/source x small/large x {absent,old} x {filename, tag}",
+BOUNDS = {"quick": "setContent x {absent,empty old,old} x {empty,1 byte,8197 bytes} x ext variants; Persistent.save pickle/source x small/large x {absent,old} x {filename, tag}",
           "thorough": "same cases plus every prefix length of the large writes (all 8197+ lengths)"}
 ASSUMPTIONS = ["process-crash model: completed system calls persist, user-space buffers are lost, rename/unlink are atomic; no block reordering (the property is about process crashes)",
                "BUFSIZE 8192 stands for io.DEFAULT_BUFFER_SIZE; every prefix of buffered data is anyway enumerated as a partial write"]
-MIN = {"quick": {"evaluations": 150, "nontrivial": 80, "outcomes": 2}}
+MIN = {"quick": {"evaluations": 275, "nontrivial": 200, "outcomes": 2}}
 
 BIG = bytes(range(256)) * 32 + b"tail!"   # 8197 bytes: crosses the 8192 buffer
 
 
 def _cases():
     out = []
-    for old in (None, b"old-content"):
+    for old in (None, b"", b"old-content"):     # absent / present but empty / present
         for new in ("empty", "one", "big"):
             for ext in (".new", b".x"):
                 out.append(("setContent", old, new, ext))
@@ -147,7 +147,7 @@ def check_case(case, base, tier, st):
             continue
         got = _read(target)
         if plan[0] > 0 or plan[1]:
-            st.nt((case[0], case[1] is None, case[2], str(case[3]), plan))
+            st.nt((case[0], None if case[1] is None else len(case[1]), case[2], str(case[3]), plan))
         if got == oldbytes:
             st.outcome("old")
         elif got == newbytes:
@@ -159,7 +159,7 @@ def check_case(case, base, tier, st):
                         "after crash plan %r (%r) target holds %s; old=%s new=%s" % (
                             plan, ops[plan[0]], kind, "absent" if oldbytes is None else "%d bytes" % len(oldbytes),
                             "%d bytes" % len(newbytes or b"")), plan))
-    st.sample({"case": [case[0], None if case[1] is None else "old", case[2], str(case[3])], "syscalls": ops, "crash_plans": len(plans)})
+    st.sample({"case": [case[0], None if case[1] is None else ("old" if case[1] else "empty-old"), case[2], str(case[3])], "syscalls": ops, "crash_plans": len(plans)})
     return bad
 
 
